@@ -34,6 +34,15 @@ Theorem C04_merge_partition_invariant : forall files root joined,
 Proof. rewrite current_pk_mode. exact merge_partition_invariant. Qed.
 Print Assumptions C04_merge_partition_invariant.
 
+(* the same with the key lists related by Permutation (they are duplicate-free) *)
+Theorem C04_merge_partition_invariant_perm : forall files root joined,
+  NoDup (map fst files) -> all_reached files root = true ->
+  wf (bcontent joined) -> refines (bcontent joined) (bcontent (all_blocks files)) ->
+  fst (denote_files pk_mode files root) = fst (denote_blocks pk_mode joined) /\
+  forall k, Permutation (key_of (denote_files pk_mode files root) k) (key_of (denote_blocks pk_mode joined) k).
+Proof. rewrite current_pk_mode. exact merge_partition_invariant_perm. Qed.
+Print Assumptions C04_merge_partition_invariant_perm.
+
 Theorem C04_merge_layouts_agree : forall files root files' root' joined,
   NoDup (map fst files) -> all_reached files root = true ->
   NoDup (map fst files') -> all_reached files' root' = true ->
